@@ -50,6 +50,132 @@ type C19Case struct {
 	A16    []int64          `json:"a16,omitempty"` // elements of the int16 array field (3)
 	AU8    []int64          `json:"au8,omitempty"` // elements of the uint8 array field (3)
 	Sw     map[string]C19Sw `json:"sw,omitempty"`  // union field -> held case and value
+	X      *C19Extra        `json:"x,omitempty"`   // structured fields (arrays with several dimensions, map, nested record, optional, nullable union)
+}
+
+// C19Extra: the values of the structured fields of the record.
+//
+//	g:   int32[x:2, y:3]      G, row-major
+//	d:   int16[p, q]          DShape, D
+//	dd:  int32[]              DDShape (1-3 dimensions), elements 0..n-1
+//	m:   string->int32        MLen entries
+//	sub: Sub {a: int32, b: Inner {c: int16}, w: int32*}
+//	o:   int32?               OSet, O
+//	un:  [null, int32, Sub]   UnCase (0 null, 1 int32 = UnVal, 2 Sub = a copy of sub)
+type C19Extra struct {
+	G       []int64 `json:"g"`
+	DShape  [2]int  `json:"dshape"`
+	D       []int64 `json:"d"`
+	DDShape []int   `json:"ddshape"`
+	MLen    int     `json:"mlen"`
+	SubA    int64   `json:"sub_a"`
+	SubC    int64   `json:"sub_c"`
+	SubW    []int64 `json:"sub_w"`
+	OSet    bool    `json:"oset"`
+	O       int64   `json:"o"`
+	UnCase  int     `json:"uncase"`
+	UnVal   int64   `json:"unval"`
+}
+
+func (c C19Case) extra() *C19Extra {
+	if c.X != nil {
+		return c.X
+	}
+	// replay files written before the structured fields existed
+	return &C19Extra{G: []int64{1, 2, 3, 4, 5, 6}, DShape: [2]int{1, 1}, D: []int64{1}, DDShape: []int{1}, MLen: 1, SubA: 1, SubC: 1, SubW: []int64{1}}
+}
+
+type c19Atom struct {
+	text, prim string
+	val        int64
+}
+
+// atoms lists every structured operand the generator may use for this record value, with its
+// static element type and its value. Subscripts are only listed inside the array's bounds.
+func (x *C19Extra) atoms() []c19Atom {
+	var out []c19Atom
+	add := func(prim string, val int64, format string, a ...any) {
+		out = append(out, c19Atom{fmt.Sprintf(format, a...), prim, val})
+	}
+	for i := 0; i < 2; i++ {
+		for j := 0; j < 3; j++ {
+			v := x.G[i*3+j]
+			add("int32", v, "g[%d, %d]", i, j)
+			add("int32", v, "g[x:%d, y:%d]", i, j)
+			add("int32", v, "g[y:%d, x:%d]", j, i)
+		}
+	}
+	add("size", 6, "size(g)")
+	add("size", 2, "size(g, 0)")
+	add("size", 3, "size(g, 1)")
+	add("size", 2, "size(g, 'x')")
+	add("size", 3, "size(g, 'y')")
+	add("size", 2, "dimensionCount(g)")
+	add("size", 0, "dimensionIndex(g, 'x')")
+	add("size", 1, "dimensionIndex(g, 'y')")
+	P, Q := x.DShape[0], x.DShape[1]
+	for i := 0; i < P; i++ {
+		for j := 0; j < Q; j++ {
+			v := x.D[i*Q+j]
+			add("int16", v, "d[%d, %d]", i, j)
+			add("int16", v, "d[p:%d, q:%d]", i, j)
+			add("int16", v, "d[q:%d, p:%d]", j, i)
+		}
+	}
+	add("size", int64(P*Q), "size(d)")
+	add("size", int64(P), "size(d, 0)")
+	add("size", int64(Q), "size(d, 1)")
+	add("size", int64(P), "size(d, 'p')")
+	add("size", int64(Q), "size(d, 'q')")
+	add("size", int64(Q), "size(d, dimensionIndex(d, 'q'))")
+	add("size", 2, "dimensionCount(d)")
+	add("size", 1, "dimensionIndex(d, 'q')")
+	n := int64(1)
+	for _, k := range x.DDShape {
+		n *= int64(k)
+	}
+	add("size", n, "size(dd)")
+	add("size", int64(len(x.DDShape)), "dimensionCount(dd)")
+	add("size", int64(x.DDShape[0]), "size(dd, 0)")
+	add("size", int64(x.DDShape[len(x.DDShape)-1]), "size(dd, %d)", len(x.DDShape)-1)
+	add("size", int64(x.MLen), "size(m)")
+	add("int32", x.SubA, "sub.a")
+	add("int16", x.SubC, "sub.b.c")
+	add("size", int64(len(x.SubW)), "size(sub.w)")
+	for k, v := range x.SubW {
+		add("int32", v, "sub.w[%d]", k)
+	}
+	return out
+}
+
+// c19Switch2: the !switch computed fields over the optional field `o` and the nullable union `un`.
+var c19Switch2 = map[string][]model.SwitchCase{
+	"o A":  {{Pattern: "int32 x", Expr: "x * 2 + 1"}, {Pattern: "_", Expr: "-3"}},
+	"o B":  {{Pattern: "null", Expr: "-3"}, {Pattern: "int32 x", Expr: "x * 2 + 1"}},
+	"un A": {{Pattern: "int32 x", Expr: "x"}, {Pattern: "Sub s", Expr: "s.a + s.b.c"}, {Pattern: "_", Expr: "7"}},
+	"un B": {{Pattern: "Sub s", Expr: "s.a + s.b.c"}, {Pattern: "null", Expr: "7"}, {Pattern: "int32 x", Expr: "x"}},
+}
+
+// addExtraValues puts the values of the structured operands and of the switch2 variants into the
+// evaluator's environment.
+func (c C19Case) addExtraValues(m map[string]*big.Rat) {
+	x := c.extra()
+	for _, a := range x.atoms() {
+		m["@"+a.text] = big.NewRat(a.val, 1)
+	}
+	o := int64(-3)
+	if x.OSet {
+		o = x.O*2 + 1
+	}
+	m["#o:A"], m["#o:B"] = big.NewRat(o, 1), big.NewRat(o, 1)
+	u := int64(7)
+	switch x.UnCase {
+	case 1:
+		u = x.UnVal
+	case 2:
+		u = x.SubA + x.SubC
+	}
+	m["#un:A"], m["#un:B"] = big.NewRat(u, 1), big.NewRat(u, 1)
 }
 
 func (c C19Case) sw(name string) C19Sw {
@@ -89,7 +215,7 @@ func (c C19Case) vecMap(vec []*big.Rat) map[string][]*big.Rat {
 	return m
 }
 
-const c19Rule = "static part (exhaustive, shard 0): every ordered pair of the 11 numeric primitives x {+,-,*,/,**} as a computed field `a op b`: yardl gives a verdict for each; verdict and declared result type are the same for (A op B) and (B op A); the declared C++ return type and the Python annotation agree; ** yields float64. dynamic part: 6-10 generated well-typed expressions per case plus two association probes `A op1 (B op2 C)` / `(A op1 B) op2 C` at equal precedence one probe `a[i] op a[j]` on elements of an int16 or uint8 array, and one `!switch` over a union of two integer types of different signedness/width whose cases return their variable (cases in either order) (depth <= 3; field access, integer and real literals, + - * / **, unary minus, casts, vector indexing, size(); explicit parentheses in every association pattern) over a record with one field per numeric primitive, evaluated on generated in-range operand values by the generated C++ and Python code; oracle: both equal the exact (rational) value of the expression whenever that value is defined by the documents and fits the declared type (integers exactly; reals within 1e-6 relative for float32 results, 1e-12 for float64; ** within 1e-9); an integer division with a non-integral quotient is judged too: against the common result when flooring and truncating agree, else C++ against Python. non-trivial = an expression with a right-nested group at equal precedence, mixed signedness/width, or a division; distinct = expression text + values"
+const c19Rule = "static part (exhaustive, shard 0): every ordered pair of the 11 numeric primitives x {+,-,*,/,**} as a computed field `a op b`: yardl gives a verdict for each; verdict and declared result type are the same for (A op B) and (B op A); the declared C++ return type and the Python annotation agree; ** yields float64. dynamic part: 6-10 generated well-typed expressions per case plus two association probes `A op1 (B op2 C)` / `(A op1 B) op2 C` at equal precedence one probe `a[i] op a[j]` on elements of an int16 or uint8 array, and one `!switch` over a union of two integer types of different signedness/width whose cases return their variable (cases in either order) (depth <= 3; field access, integer and real literals, + - * / **, unary minus, casts, vector indexing, size(); explicit parentheses in every association pattern), and structured operands - subscripts of a fixed int32[x:2, y:3] and a dynamic-size int16[p, q] array given positionally, by dimension name and by name in reverse order, size(array), size(array, index), size(array, 'name'), dimensionIndex, dimensionCount (also on an array with a dynamic number of dimensions), size(map), member access through two nested records, elements and size of a vector inside a nested record - used on their own, in `A op B` probes and inside the generated expressions, plus one `!switch` over an optional or a [null, int32, record] union (cases in either order, null written as `null` or as the `_` default) - over a record with one field per numeric primitive and those structured fields, evaluated on generated in-range operand values by the generated C++ and Python code; oracle: both equal the exact (rational) value of the expression whenever that value is defined by the documents and fits the declared type (integers exactly; reals within 1e-6 relative for float32 results, 1e-12 for float64; ** within 1e-9); an integer division with a non-integral quotient is judged too: against the common result when flooring and truncating agree, else C++ against Python. non-trivial = an expression with a right-nested group at equal precedence, mixed signedness/width, or a division; distinct = expression text + values"
 
 func c19Model(exprs []string) *model.Package {
 	rec := &model.Def{Kind: model.DRecord, Name: "Rec"}
@@ -103,7 +229,24 @@ func c19Model(exprs []string) *model.Package {
 	for _, u := range c19Unions {
 		rec.Fields = append(rec.Fields, model.Field{Name: u.name, Type: &model.Type{Kind: model.KUnion, Cases: []*model.Type{model.Prim(u.prims[0]), model.Prim(u.prims[1])}, Tags: []string{u.prims[0], u.prims[1]}}})
 	}
+	two, three := uint64(2), uint64(3)
+	inner := &model.Def{Kind: model.DRecord, Name: "Inner", Fields: []model.Field{{Name: "c", Type: model.Prim("int16")}}}
+	sub := &model.Def{Kind: model.DRecord, Name: "Sub", Fields: []model.Field{{Name: "a", Type: model.Prim("int32")}, {Name: "b", Type: model.Ref("Mdl", "Inner")}, {Name: "w", Type: model.Vector(model.Prim("int32"))}}}
+	rec.Fields = append(rec.Fields,
+		model.Field{Name: "g", Type: &model.Type{Kind: model.KArray, Elem: model.Prim("int32"), HasDims: true, Dims: []model.Dim{{Name: "x", Len: &two}, {Name: "y", Len: &three}}}},
+		model.Field{Name: "d", Type: &model.Type{Kind: model.KArray, Elem: model.Prim("int16"), HasDims: true, Dims: []model.Dim{{Name: "p"}, {Name: "q"}}}},
+		model.Field{Name: "dd", Type: &model.Type{Kind: model.KArray, Elem: model.Prim("int32")}},
+		model.Field{Name: "m", Type: model.Map(model.Prim("string"), model.Prim("int32"))},
+		model.Field{Name: "sub", Type: model.Ref("Mdl", "Sub")},
+		model.Field{Name: "o", Type: model.Optional(model.Prim("int32"))},
+		model.Field{Name: "un", Type: &model.Type{Kind: model.KUnion, Cases: []*model.Type{nil, model.Prim("int32"), model.Ref("Mdl", "Sub")}, Tags: []string{"null", "int32", "Sub"}}},
+	)
 	for i, e := range exprs {
+		if strings.HasPrefix(e, "!switch2 ") {
+			key := strings.TrimPrefix(e, "!switch2 ")
+			rec.Computed = append(rec.Computed, model.Computed{Name: fmt.Sprintf("c%d", i), Switch: &model.SwitchExpr{Target: strings.Fields(key)[0], Cases: c19Switch2[key]}})
+			continue
+		}
 		if strings.HasPrefix(e, "!switch ") {
 			// "!switch <union field> <case order>": every case returns its variable
 			f := strings.Fields(e)
@@ -124,7 +267,7 @@ func c19Model(exprs []string) *model.Package {
 		rec.Computed = append(rec.Computed, model.Computed{Name: fmt.Sprintf("c%d", i), Expr: e})
 	}
 	proto := &model.Def{Kind: model.DProtocol, Name: "Proto0", Fields: []model.Field{{Name: "r", Type: model.Ref("Mdl", "Rec")}}}
-	return &model.Package{Namespace: "Mdl", DirName: "main", NumFiles: 1, Defs: []*model.Def{rec, proto}}
+	return &model.Package{Namespace: "Mdl", DirName: "main", NumFiles: 1, Defs: []*model.Def{inner, sub, rec, proto}}
 }
 
 var (
@@ -240,7 +383,7 @@ func c19StaticTable(t *testing.T, rec *core.Recorder) {
 
 // ---- dynamic part -----------------------------------------------------------------------
 
-func genExpr2(t *rapid.T, depth int) *ref.Expr2 {
+func genExpr2(t *rapid.T, depth int, atoms []c19Atom) *ref.Expr2 {
 	k := rapid.IntRange(0, 11).Draw(t, "ek")
 	if depth <= 0 {
 		k = k % 4
@@ -252,6 +395,15 @@ func genExpr2(t *rapid.T, depth int) *ref.Expr2 {
 	case 2:
 		return &ref.Expr2{Kind: "int", Lit: strconv.Itoa(rapid.IntRange(0, 9).Draw(t, "ilit"))}
 	case 3:
+		if len(atoms) > 0 && rapid.IntRange(0, 2).Draw(t, "structured") == 0 {
+			a := atoms[rapid.IntRange(0, len(atoms)-1).Draw(t, "atom")]
+			e := &ref.Expr2{Kind: "atom", Lit: a.text, Prim: a.prim}
+			if a.prim == "size" && rapid.Bool().Draw(t, "atomCast") {
+				// sizes are unsigned 64-bit: half of the time brought into signed arithmetic
+				return &ref.Expr2{Kind: "cast", Name: "int32", L: e}
+			}
+			return e
+		}
 		if rapid.Bool().Draw(t, "fl") {
 			return &ref.Expr2{Kind: "float", Lit: rapid.SampledFrom([]string{"0.5", "2.0", "1.25", "3.0", "0.25"}).Draw(t, "flit")}
 		}
@@ -266,13 +418,13 @@ func genExpr2(t *rapid.T, depth int) *ref.Expr2 {
 		}
 		return &ref.Expr2{Kind: "index", Name: "v", Prim: "int32", Index: rapid.IntRange(0, 2).Draw(t, "idx")}
 	case 4:
-		return &ref.Expr2{Kind: "neg", L: genExpr2(t, depth-1)}
+		return &ref.Expr2{Kind: "neg", L: genExpr2(t, depth-1, atoms)}
 	case 5:
 		to := rapid.SampledFrom([]string{"int32", "int64", "float64", "float32", "uint8", "int8", "uint32", "uint64", "int16"}).Draw(t, "castTo")
-		return &ref.Expr2{Kind: "cast", Name: to, L: genExpr2(t, depth-1)}
+		return &ref.Expr2{Kind: "cast", Name: to, L: genExpr2(t, depth-1, atoms)}
 	default:
 		op := rapid.SampledFrom([]string{"+", "-", "*", "/", "-", "/", "**"}).Draw(t, "op")
-		l, r := genExpr2(t, depth-1), genExpr2(t, depth-1)
+		l, r := genExpr2(t, depth-1, atoms), genExpr2(t, depth-1, atoms)
 		if ref.NeedsParen(op, l, false) || (l.Kind == "bin" && rapid.IntRange(0, 3).Draw(t, "extraParenL") == 0) {
 			l = &ref.Expr2{Kind: "paren", L: l}
 		}
@@ -310,10 +462,50 @@ func genC19(t *rapid.T) C19Case {
 		c.A16 = append(c.A16, int64(rapid.SampledFrom([]int{30000, -30000, 32767, -32768, 200, -7, 1, 0, 181}).Draw(t, "a16")))
 		c.AU8 = append(c.AU8, int64(rapid.SampledFrom([]int{255, 200, 128, 16, 2, 1, 0}).Draw(t, "au8")))
 	}
+	// structured fields
+	x := &C19Extra{}
+	for i := 0; i < 6; i++ {
+		x.G = append(x.G, int64(rapid.SampledFrom([]int{-2147483648, 2147483647, -9, 0, 1, 7, 40000, 250}).Draw(t, "g")))
+	}
+	x.DShape = [2]int{rapid.IntRange(1, 3).Draw(t, "dP"), rapid.IntRange(1, 4).Draw(t, "dQ")}
+	for i := 0; i < x.DShape[0]*x.DShape[1]; i++ {
+		x.D = append(x.D, int64(rapid.SampledFrom([]int{-32768, 32767, -3, 0, 2, 11, 181}).Draw(t, "d")))
+	}
+	for i, nd := 0, rapid.IntRange(1, 3).Draw(t, "ddN"); i < nd; i++ {
+		x.DDShape = append(x.DDShape, rapid.IntRange(1, 3).Draw(t, "ddK"))
+	}
+	x.MLen = rapid.IntRange(0, 4).Draw(t, "mLen")
+	x.SubA = int64(rapid.SampledFrom([]int{-7, 0, 3, 100000, -2147483648}).Draw(t, "subA"))
+	x.SubC = int64(rapid.SampledFrom([]int{-32768, 32767, -1, 0, 5}).Draw(t, "subC"))
+	for i, nw := 0, rapid.IntRange(0, 3).Draw(t, "subWn"); i < nw; i++ {
+		x.SubW = append(x.SubW, int64(rapid.IntRange(-50, 50).Draw(t, "subW")))
+	}
+	x.OSet = rapid.Bool().Draw(t, "oSet")
+	if x.OSet {
+		x.O = int64(rapid.SampledFrom([]int{-5, 0, 4, 1000000}).Draw(t, "o"))
+	}
+	x.UnCase = rapid.IntRange(0, 2).Draw(t, "unCase")
+	if x.UnCase == 1 {
+		x.UnVal = int64(rapid.SampledFrom([]int{-2147483648, 2147483647, -4, 0, 9}).Draw(t, "unVal"))
+	}
+	c.X = x
+	atoms := x.atoms()
 	n := rapid.IntRange(6, 10).Draw(t, "nexpr")
 	for i := 0; i < n; i++ {
-		c.Exprs = append(c.Exprs, genExpr2(t, 3))
+		c.Exprs = append(c.Exprs, genExpr2(t, 3, atoms))
 	}
+	// structured probes: two operands on their own (declared type and value without arithmetic
+	// around them), one `A op B` over two of them, and one !switch over the optional / nullable union
+	for i := 0; i < 2; i++ {
+		a := atoms[rapid.IntRange(0, len(atoms)-1).Draw(t, "probeAtom")]
+		c.Exprs = append(c.Exprs, &ref.Expr2{Kind: "atom", Lit: a.text, Prim: a.prim})
+	}
+	{
+		a, b := atoms[rapid.IntRange(0, len(atoms)-1).Draw(t, "probeAtomL")], atoms[rapid.IntRange(0, len(atoms)-1).Draw(t, "probeAtomR")]
+		op := rapid.SampledFrom([]string{"+", "-", "*"}).Draw(t, "probeAtomOp")
+		c.Exprs = append(c.Exprs, &ref.Expr2{Kind: "bin", Op: op, L: &ref.Expr2{Kind: "atom", Lit: a.text, Prim: a.prim}, R: &ref.Expr2{Kind: "atom", Lit: b.text, Prim: b.prim}})
+	}
+	c.Exprs = append(c.Exprs, &ref.Expr2{Kind: "switch2", Name: rapid.SampledFrom([]string{"o", "un"}).Draw(t, "sw2Field"), Lit: rapid.SampledFrom([]string{"A", "B"}).Draw(t, "sw2Variant")})
 	// two association probes per case: A op1 (B op2 C) and (A op1 B) op2 C with op1, op2 of equal
 	// precedence, over signed integer fields and small literals (all eight nestings of +,- and of *,/)
 	atom := func(label string) *ref.Expr2 {
@@ -407,6 +599,7 @@ func checkC19(c C19Case) *Fail {
 		}
 	}
 	c.addUnionValues(preFields)
+	c.addExtraValues(preFields)
 	var preVec []*big.Rat
 	for _, x := range c.Vec {
 		preVec = append(preVec, big.NewRat(x, 1))
@@ -493,6 +686,7 @@ func checkC19(c C19Case) *Fail {
 	}
 	recV.Items = append(recV.Items, arr16, arrU8)
 	c.addUnionValues(fields)
+	c.addExtraValues(fields)
 	for _, u := range c19Unions {
 		h := c.sw(u.name)
 		var inner *value.Value
@@ -502,6 +696,49 @@ func checkC19(c C19Case) *Fail {
 			inner = &value.Value{K: value.Uint, U: uint64(h.Val)}
 		}
 		recV.Items = append(recV.Items, &value.Value{K: value.Union, Case: h.Case, Items: []*value.Value{inner}})
+	}
+	{
+		x := c.extra()
+		ints := func(vs []int64) (out []*value.Value) {
+			for _, v := range vs {
+				out = append(out, &value.Value{K: value.Int, I: v})
+			}
+			return
+		}
+		subV := func() *value.Value {
+			return &value.Value{K: value.Record, Items: []*value.Value{{K: value.Int, I: x.SubA}, {K: value.Record, Items: []*value.Value{{K: value.Int, I: x.SubC}}}, {K: value.Seq, Items: ints(x.SubW)}}}
+		}
+		ddShape := []uint64{}
+		ddN := 1
+		for _, k := range x.DDShape {
+			ddShape = append(ddShape, uint64(k))
+			ddN *= k
+		}
+		var ddVals []int64
+		for i := 0; i < ddN; i++ {
+			ddVals = append(ddVals, int64(i))
+		}
+		mV := &value.Value{K: value.Map}
+		for i := 0; i < x.MLen; i++ {
+			mV.Keys = append(mV.Keys, &value.Value{K: value.String, S: fmt.Sprintf("k%d", i)})
+			mV.Items = append(mV.Items, &value.Value{K: value.Int, I: int64(i)})
+		}
+		oV := &value.Value{K: value.Union, Case: 0}
+		if x.OSet {
+			oV = &value.Value{K: value.Union, Case: 1, Items: []*value.Value{{K: value.Int, I: x.O}}}
+		}
+		unV := &value.Value{K: value.Union, Case: x.UnCase}
+		switch x.UnCase {
+		case 1:
+			unV.Items = []*value.Value{{K: value.Int, I: x.UnVal}}
+		case 2:
+			unV.Items = []*value.Value{subV()}
+		}
+		recV.Items = append(recV.Items,
+			&value.Value{K: value.Array, Shape: []uint64{2, 3}, Items: ints(x.G)},
+			&value.Value{K: value.Array, Shape: []uint64{uint64(x.DShape[0]), uint64(x.DShape[1])}, Items: ints(x.D)},
+			&value.Value{K: value.Array, Shape: ddShape, Items: ints(ddVals)},
+			mV, subV(), oV, unV)
 	}
 	proto := p.Find("Proto0")
 	in := filepath.Join(b.Root, "rec.bin")
@@ -540,7 +777,8 @@ func checkC19(c C19Case) *Fail {
 		want := e.Eval(fields, c.vecMap(vec))
 		decl := declared[i]
 		ctx := func() string {
-			return fmt.Sprintf("computed field `%s` (read as %s), declared %s, on %v v=%v", e.Text(), e.Tree(), decl, c.Values, c.Vec)
+			xs, _ := json.Marshal(c.extra())
+			return fmt.Sprintf("computed field `%s` (read as %s), declared %s, on %v v=%v structured=%s", e.Text(), e.Tree(), decl, c.Values, c.Vec, xs)
 		}
 		if want.Undefined == ref.IntDivUndefined {
 			// inexact integer division. Where flooring and truncating give the same result
@@ -604,7 +842,12 @@ func checkC19(c C19Case) *Fail {
 		}
 		rec.EvalN(1)
 		if strings.Contains(e.Text(), "/") || strings.Contains(e.Text(), "(") {
-			rec.Nontrivial(core.Hash(e.Text(), c.Values, c.Vec))
+			rec.Nontrivial(core.Hash(e.Text(), c.Values, c.Vec, c.X))
+		}
+		for _, w := range []string{"size(", "dimensionIndex(", "dimensionCount(", "sub.", "g[", "d[", "!switch2"} {
+			if strings.Contains(e.Text(), w) {
+				rec.Class("judged-with:" + w)
+			}
 		}
 		for lang, s := range map[string]string{"C++": cppVals[i], "Python": pyVals[i]} {
 			kind, gi, gf, gerr := parseCf(s)
@@ -678,7 +921,7 @@ func TestC19(t *testing.T) {
 		for _, e := range c.Exprs {
 			texts = append(texts, e.Text())
 		}
-		rec.Sample(map[string]any{"expressions": texts, "values": c.Values, "vec": c.Vec})
+		rec.Sample(map[string]any{"expressions": texts, "values": c.Values, "vec": c.Vec, "structured": c.X})
 		report(rt, rec, checkC19(c), c)
 	})
 }
